@@ -1,9 +1,114 @@
 """Indicators and objectives."""
+import processscheduler as ps
+
+from harness.pslib import q, opt, lst
+from harness import pslib_ext as X
+
+
+def ind_sx(c):
+    k = c[0]
+    if k == "expr":
+        return f"(expr {q(c[1])} {X.term_sx(c[2])} {opt(c[3], X.pair)})"
+    if k in ("utilization", "nbTasksAssigned", "idle", "maxBuffer", "minBuffer"):
+        return f"({k} {q(c[1])})"
+    if k in ("tardiness", "earliness", "nbTardy", "maxLateness"):
+        return f"({k} {opt(c[1], lambda l: lst(l, q))})"
+    if k == "resourceCost":
+        return f"(resourceCost {lst(c[1], q)})"
+    raise ValueError(k)
+
+
+def obj_sx(c):
+    k = c[0]
+    if k in ("maximizeIndicator", "minimizeIndicator"):
+        return f"({k} {c[1]} {c[2]})"
+    if k in ("makespan", "priorities", "startEarliest"):
+        return f"({k})"
+    if k in ("flowtime", "startLatest", "greatestStart"):
+        return f"({k} {opt(c[1], lambda l: lst(l, q))})"
+    if k in ("resourceUtilization", "maximizeMaxBuffer", "minimizeMaxBuffer"):
+        return f"({k} {q(c[1])})"
+    if k == "resourceCost":
+        return f"(resourceCost {lst(c[1], q)})"
+    raise ValueError(k)
 
 
 def to_line(d):
+    if d["op"] == "indicator":
+        return f"(indicator {ind_sx(d['i'])})"
+    if d["op"] == "objective":
+        return f"(objective {obj_sx(d['o'])})"
     raise ValueError(f"unknown op {d['op']}")
+
+
+def sync_indicators(real):
+    real.indicators = list(real.problem.indicators.values())
 
 
 def do(real, d):
-    raise ValueError(f"unknown op {d['op']}")
+    T = real.tasks
+    tl = lambda names: None if names is None else [T[n] for n in names]
+    try:
+        if d["op"] == "indicator":
+            c = d["i"]
+            k = c[0]
+            if k == "expr":
+                kw = {"bounds": tuple(c[3])} if c[3] is not None else {}
+                ps.IndicatorFromMathExpression(name=c[1], expression=X.term_z3(real, c[2]), **kw)
+            elif k == "utilization":
+                ps.IndicatorResourceUtilization(resource=X.resource_named(real, c[1]))
+            elif k == "nbTasksAssigned":
+                ps.IndicatorNumberTasksAssigned(resource=X.resource_named(real, c[1]))
+            elif k == "tardiness":
+                ps.IndicatorTardiness(list_of_tasks=tl(c[1]))
+            elif k == "earliness":
+                ps.IndicatorEarliness(list_of_tasks=tl(c[1]))
+            elif k == "nbTardy":
+                ps.IndicatorNumberOfTardyTasks(list_of_tasks=tl(c[1]))
+            elif k == "maxLateness":
+                ps.IndicatorMaximumLateness(list_of_tasks=tl(c[1]))
+            elif k == "resourceCost":
+                ps.IndicatorResourceCost(list_of_resources=[X.resource_named(real, r) for r in c[1]])
+            elif k == "idle":
+                ps.IndicatorResourceIdle(resource=X.resource_named(real, c[1]))
+            elif k == "maxBuffer":
+                ps.IndicatorMaxBufferLevel(buffer=real.buffers[c[1]])
+            elif k == "minBuffer":
+                ps.IndicatorMinBufferLevel(buffer=real.buffers[c[1]])
+            else:
+                raise ValueError(k)
+        elif d["op"] == "objective":
+            c = d["o"]
+            k = c[0]
+            inds = list(real.problem.indicators.values())
+            if k == "maximizeIndicator":
+                ps.ObjectiveMaximizeIndicator(target=inds[c[1]], weight=c[2])
+            elif k == "minimizeIndicator":
+                ps.ObjectiveMinimizeIndicator(target=inds[c[1]], weight=c[2])
+            elif k == "makespan":
+                ps.ObjectiveMinimizeMakespan()
+            elif k == "flowtime":
+                ps.ObjectiveMinimizeFlowtime(**({"list_of_tasks": tl(c[1])} if c[1] is not None else {}))
+            elif k == "priorities":
+                ps.ObjectivePriorities()
+            elif k == "startLatest":
+                ps.ObjectiveTasksStartLatest(**({"list_of_tasks": tl(c[1])} if c[1] is not None else {}))
+            elif k == "startEarliest":
+                ps.ObjectiveTasksStartEarliest()
+            elif k == "greatestStart":
+                ps.ObjectiveMinimizeGreatestStartTime(**({"list_of_tasks": tl(c[1])} if c[1] is not None else {}))
+            elif k == "resourceUtilization":
+                ps.ObjectiveMaximizeResourceUtilization(resource=X.resource_named(real, c[1]))
+            elif k == "resourceCost":
+                ps.ObjectiveMinimizeResourceCost(list_of_resources=[X.resource_named(real, r) for r in c[1]])
+            elif k == "maximizeMaxBuffer":
+                ps.ObjectiveMaximizeMaxBufferLevel(buffer=real.buffers[c[1]])
+            elif k == "minimizeMaxBuffer":
+                ps.ObjectiveMinimizeMaxBufferLevel(buffer=real.buffers[c[1]])
+            else:
+                raise ValueError(k)
+        else:
+            raise ValueError(f"unknown op {d['op']}")
+    finally:
+        if real.problem is not None:
+            sync_indicators(real)
